@@ -31,6 +31,32 @@ Theorem C19_warm_start_lands_on_solution : forall (V Pm : Type) (vadd : V -> V -
   g V Pm vadd H B c (vadd x dx) p_new = zero.
 Proof. exact warm_start_lands_on_solution. Qed.
 
+(* CG tolerance clause: the linear solve stops at |H dx - b| <= rtol |b|, b = B (p_old - p_new) (scipy cg, atol = 0).  Then
+   |g(x+dx, p_new)| <= |g(x, p_old)| + rtol |b|, and from an equilibrium of the old parameters |g(x+dx, p_new)| <= rtol |b|.
+   (nrm: any function satisfying the triangle inequality.) *)
+Theorem C19_warm_start_cg_bound : forall (V Pm : Type) (vadd : V -> V -> V) (psub padd : Pm -> Pm -> Pm),
+  (forall a b c, vadd a (vadd b c) = vadd (vadd a b) c) -> (forall a b, vadd a b = vadd b a) ->
+  (forall p q, padd (psub p q) q = p) ->
+  forall (H : V -> V) (B : Pm -> V) (c : V),
+  (forall a b, H (vadd a b) = vadd (H a) (H b)) -> (forall p q, B (padd p q) = vadd (B p) (B q)) ->
+  forall (nrm : V -> R), (forall a b, nrm (vadd a b) <= nrm a + nrm b) ->
+  forall x p_old p_new dx r rtol,
+  H dx = vadd (B (psub p_old p_new)) r -> nrm r <= rtol * nrm (B (psub p_old p_new)) ->
+  nrm (g V Pm vadd H B c (vadd x dx) p_new) <= nrm (g V Pm vadd H B c x p_old) + rtol * nrm (B (psub p_old p_new)).
+Proof. exact warm_start_cg_bound. Qed.
+
+Theorem C19_warm_start_cg_bound_equilibrium : forall (V Pm : Type) (vadd : V -> V -> V) (psub padd : Pm -> Pm -> Pm),
+  (forall a b c, vadd a (vadd b c) = vadd (vadd a b) c) -> (forall a b, vadd a b = vadd b a) ->
+  (forall p q, padd (psub p q) q = p) ->
+  forall (H : V -> V) (B : Pm -> V) (c : V),
+  (forall a b, H (vadd a b) = vadd (H a) (H b)) -> (forall p q, B (padd p q) = vadd (B p) (B q)) ->
+  forall (nrm : V -> R),
+  forall (zero : V) x p_old p_new dx r rtol, (forall a, vadd a zero = a) ->
+  g V Pm vadd H B c x p_old = zero ->
+  H dx = vadd (B (psub p_old p_new)) r -> nrm r <= rtol * nrm (B (psub p_old p_new)) ->
+  nrm (g V Pm vadd H B c (vadd x dx) p_new) <= rtol * nrm (B (psub p_old p_new)).
+Proof. exact warm_start_cg_bound_equilibrium. Qed.
+
 (* scaling: xBar = d * x with d_j <> 0 (d = sqrt(diag K) > 0 in the code) *)
 Theorem C19_scaling_minimisers : forall (f : rvec -> R) d xb, (forall j, d j <> 0) ->
   (forall yb, scaled f d xb <= scaled f d yb) <-> (forall y, f (unscale d xb) <= f y).
@@ -82,6 +108,7 @@ Example C19_nonvacuous :
 Proof. exact warm_start_nonvacuous. Qed.
 
 Print Assumptions C19_warm_start_linear.
+Print Assumptions C19_warm_start_cg_bound_equilibrium.
 Print Assumptions C19_scaling_stationary.
 Print Assumptions C19_driver_order.
 Print Assumptions C19_slot_laws.
